@@ -33,6 +33,12 @@ ASSUMPTIONS = [
 LOCAL, PEER = '10.0.0.1', '10.0.0.2'
 ALL_FAMS = [(1, 1), (2, 1), (1, 2), (1, 4), (1, 128)]
 AP_SUPPORTED = [(1, 1), (2, 1), (1, 4), (1, 128)]
+WIDE_FAMS = [
+    (1, 1), (1, 2), (1, 4), (1, 128), (1, 5), (1, 133), (1, 134), (1, 85), (1, 73), (2, 1), (2, 4), (2, 128), (2, 5), (2, 85), (2, 73), (2, 133), (2, 134),
+    (25, 65), (25, 70), (16388, 71), (16388, 72),
+]  # fmt: skip
+FAM_TEXT.update({(1, 5): 'ipv4 mcast-vpn', (2, 5): 'ipv6 mcast-vpn', (1, 85): 'ipv4 mup', (2, 85): 'ipv6 mup', (1, 73): 'ipv4 sr-policy', (2, 73): 'ipv6 sr-policy',
+                 (25, 70): 'l2vpn evpn', (16388, 71): 'bgp-ls bgp-ls', (16388, 72): 'bgp-ls bgp-ls-vpn'})  # fmt: skip
 
 
 def counts(tier: str):
@@ -44,6 +50,11 @@ def generate(rng, tier: str, index: int) -> dict:
     ibgp = rng.chance(0.3)
     peer_as = local_as if ibgp else rng.choice([65002, 4200000002])
     fams = [(1, 1)] + rng.sample(ALL_FAMS[1:], rng.randint(0, 3))
+    wide = rng.chance(0.2)
+    if wide:
+        # enough families (8 bytes of capability each) and names that exabgp's own optional parameters pass 255 bytes
+        # and it has to use the RFC 9072 extended form; sizes drawn around the switch
+        fams = [(1, 1)] + rng.sample([f for f in WIDE_FAMS if f != (1, 1)], rng.randint(12, len(WIDE_FAMS) - 1))
     apmode = rng.choice(['disable', 'disable', 'send', 'receive', 'send/receive'])
     conf = {
         'local_as': local_as, 'peer_as': peer_as, 'hold': rng.choice([0, 3, 9, 30, 180]), 'families': fams, 'asn4': rng.chance(0.8),
@@ -51,6 +62,9 @@ def generate(rng, tier: str, index: int) -> dict:
         'extmsg': rng.chance(0.5), 'refresh': rng.chance(0.8), 'gr': rng.choice([0, 0, 120]),
         'nexthop': rng.chance(0.3), 'hostname': rng.choice([None, None, 'r1', 'h' * 60]), 'domain': rng.choice([None, 'example.net', 'd' * 60]),
     }  # fmt: skip
+    if wide:
+        conf['hostname'] = 'h' * rng.choice([1, 20, 40, 60, 63, 64])
+        conf['domain'] = 'd' * rng.choice([1, 20, 40, 60, 63, 64])
     ap_ok = [f for f in fams if f in AP_SUPPORTED]  # exabgp implements ADD-PATH for these families only
     if apmode != 'disable' and ap_ok:
         conf['addpath_families'] = rng.sample(ap_ok, rng.randint(1, len(ap_ok)))
